@@ -622,9 +622,10 @@ fn sched_subs_for(id: &str) -> Vec<Sub> {
                             ..GenCfg::default()
                         },
                         pairs: false,
+                        name: "c14-faults",
                     },
-                    160,
-                    6_000,
+                    1_200,
+                    40_000,
                 )
             },
             Sub {
@@ -643,12 +644,40 @@ fn sched_subs_for(id: &str) -> Vec<Sub> {
                             ..GenCfg::default()
                         },
                         pairs: true,
+                        name: "c14-pairs",
                     },
-                    160,
-                    6_000,
+                    600,
+                    20_000,
+                )
+            },
+            Sub {
+                max_lanes: 8,
+                ..sub(
+                    p_misc::C14 {
+                        // dependency chains over mostly unrelated systems with skewed hints: dependents
+                        // are packed behind their dependency in one group
+                        cfg: GenCfg {
+                            max_ops: 8,
+                            universe_max: 12,
+                            max_reads: 1,
+                            max_writes: 1,
+                            p_dep: 9,
+                            max_deps: 1,
+                            p_batch: 0,
+                            p_tl: 0,
+                            p_barrier: 0,
+                            p_static: 0,
+                            ..GenCfg::default()
+                        },
+                        pairs: false,
+                        name: "c14-groups",
+                    },
+                    1_200,
+                    40_000,
                 )
             },
         ],
+        "C14g" => vec![],
         "C11" => vec![Sub {
             max_lanes: 1,
             ..sub(p_misc::C11, 120, 6_000)
